@@ -67,6 +67,9 @@ def generated_programs(rng, n):
     from gen import faults
     for i, case in enumerate(faults.template_cases(None, 0)):
         out.append((f"impl{i}", b(case[0])))
+    # the hand-written analyzer cases (witnesses of repaired findings and rule corners; well- and ill-typed)
+    for case in faults.fixed_cases():
+        out.append((f"fixed-{case[0]}", b(case[1])))
     from props.C14 import template_programs
     for i, (mods, _) in enumerate(template_programs()):
         if i % 4 == 0:
@@ -427,7 +430,10 @@ CULPRITS = [
 
 PRELUDE = ("    let one = 1;\n    let zero = 0;\n    let seven = 7;\n    let lst = [1, 2, 3];\n    let wrd = \"ab\";\n    let opt: ?int = none;\n"
            "    let jsn = \"\\\"text\\\"\";\n    let jsl = \"[1, 2]\";\n    let jso = \"{\\\"a\\\": 1}\";\n    let jsx = \"{\\\"a\\\": 1, \\\"z\\\": 2}\";\n"
-           "    let jsw = \"{\\\"w\\\": {\\\"a\\\": 1}}\";\n")
+           "    let jsw = \"{\\\"w\\\": {\\\"a\\\": 1}}\";\n"
+           # control flow in front of the culprit: its instructions come after several labels of the same function
+           "    let pre = 0;\n    if one > zero && seven > one {\n        pre = 1;\n    } else {\n        pre = 2;\n    }\n    for q in 0..2 {\n        pre += q;\n    }\n"
+           "    while pre > 100 {\n        pre -= 1;\n    }\n    let sel = match pre {\n        1 => 10,\n        _ => 20,\n    };\n    try {\n        pre += sel;\n    } catch never_e {\n        pre = 0;\n    }\n")
 
 
 def runtime_cases(rng, n_layout):
